@@ -234,6 +234,20 @@ func Profile(prop string, rng *prng.Rand, idx uint64) *GenCfg {
 	default:
 		panic("no profile for " + prop)
 	}
+	switch prop {
+	case "C01", "C11", "C12", "C15", "C19":
+		// big pools: term lists whose points and scalars are (nearly) all distinct -
+		// thresholds in the number of DISTINCT operands of one call, not only in its
+		// length
+		if rng.Bool(0.04) && c.NP > 0 {
+			c.NP = 17 + rng.Intn(120)
+			c.NS = 17 + rng.Intn(40)
+			if c.PBigList < 0.2 {
+				c.PBigList = 0.2
+			}
+			c.BigPool = true
+		}
+	}
 	return c
 }
 
